@@ -644,14 +644,32 @@ func (rig *c34Rig) e2e(c c34Case, method, path string, cl int, nobody bool, h []
 	}
 
 	// ---- Go-side oracle, response direction
-	rig.respOracle(c, method, obs, cres, o)
+	// Region of the known finding `early-response-lost`: the handler answered without reading the
+	// whole request body while the client could not yet hand all of it to its QUIC stream.
+	early := obs.end == "stopped" && c.wbuf > 0 && total >= c.wbuf
+	over := ""
+	if early {
+		over = "early-response-lost"
+		o.Stat("e2e:early-region")
+	}
+	rig.respOracle(c, method, obs, cres, over, o)
+	o.Stat("e2e:handler-" + obs.end)
+	if early {
+		if cf := strings.Fields(cres); len(cf) == 7 && cf[5] == "eof" {
+			o.Stat("e2e:early-delivered")
+		} else {
+			o.Stat("e2e:early-lost")
+		}
+		cres = "ok unspec"
+	}
 	return reqLine, "ok " + wres, cres
 }
 
 // respOracle states the property for the response direction directly: what the handler's
 // Write calls accepted must be what the client reads, and a shortfall against the declared
 // Content-Length must end in an error, not a clean EOF.
-func (rig *c34Rig) respOracle(c c34Case, method string, obs *c34Observed, cres string, o *vu.Out) {
+func (rig *c34Rig) respOracle(c c34Case, method string, obs *c34Observed, cres string, over string, o0 *vu.Out) {
+	o := &c34Failer{o0, over}
 	var accepted []byte
 	wi := 0
 	for _, tok := range c.rp.writes {
@@ -701,6 +719,15 @@ func (rig *c34Rig) respOracle(c c34Case, method string, obs *c34Observed, cres s
 		if len(got) != 0 {
 			o.Fail("resp-body-on-bodyless", f[4])
 		}
+		if f[5] != "eof" {
+			if status != 204 && c.rp.cl > 0 && (method != "HEAD" || c.rp.trmode == "d") {
+				// known finding: a bodyless response (304, or HEAD with declared trailers) that carries a
+				// Content-Length (allowed, RFC 9110 8.6) reads as "body shorter than content-length"
+				o.Fail("bodyless-response-content-length-read-error", fmt.Sprintf("status %d to %s with Content-Length %d: client body read ends in %s", status, method, c.rp.cl, f[5]))
+			} else {
+				o.Fail("resp-bodyless-read-error", cres)
+			}
+		}
 		return
 	}
 	if !bytes.HasPrefix(accepted, got) {
@@ -731,6 +758,19 @@ func (rig *c34Rig) respOracle(c c34Case, method string, obs *c34Observed, cres s
 			o.Fail("resp-read-error", "well-formed response body ended in an error on the client side")
 		}
 	}
+}
+
+type c34Failer struct {
+	o    *vu.Out
+	over string
+}
+
+func (f *c34Failer) Fail(sig, desc string) {
+	if f.over != "" {
+		desc = "[" + sig + "] " + desc
+		sig = f.over
+	}
+	f.o.Fail(sig, desc)
 }
 
 // ---------------------------------------------------------------- raw peers
@@ -877,11 +917,8 @@ func (rig *c34Rig) rawReq(c c34Case, method, clStr string, trdecl bool, frames [
 	if obs.end == "err" && !mismatch {
 		o.Fail("rawreq-read-error", "well-formed raw request ended in an error on the handler side")
 	}
-	body := c34HexOrDash(obs.body)
-	if obs.end == "err" {
-		body = "?"
-	}
-	return fmt.Sprintf("ok %d %s %s %s", obs.cl, body, obs.end, obs.tr)
+	o.Stat("rawreq:" + obs.end)
+	return fmt.Sprintf("ok %d %s %s %s", obs.cl, c34HexOrDash(obs.body), obs.end, obs.tr)
 }
 
 // rawResp: the real client sends a bodyless request to a raw QUIC peer which answers with
@@ -976,9 +1013,7 @@ func (rig *c34Rig) rawResp(c c34Case, method string, status int, clStr string, t
 			o.Fail("rawresp-read-error", "well-formed raw response ended in an error on the client side")
 		}
 	}
-	if f[5] == "err" {
-		f[4] = "?"
-	}
+	o.Stat("rawresp:" + f[5])
 	return strings.Join(f, " ")
 }
 
@@ -1103,7 +1138,7 @@ func (x *c34Exec) exec(ops []string, o *vu.Out) {
 				}
 				frames, ok1 := c34ParseFrames(f[4])
 				tr, ok2 := c34ParseHL(f[5])
-				if !ok1 || !ok2 || (f[3] != "0" && f[3] != "1") || (f[1] != "POST" && f[1] != "GET" && f[1] != "PUT") {
+				if !ok1 || !ok2 || (f[3] != "0" && f[3] != "1") || (f[1] != "POST" && f[1] != "GET" && f[1] != "PUT") || (f[3] == "1") != (len(tr) > 0) {
 					return
 				}
 				if f[2] != "-" {
@@ -1119,7 +1154,7 @@ func (x *c34Exec) exec(ops []string, o *vu.Out) {
 				st, e1 := strconv.Atoi(f[2])
 				frames, ok1 := c34ParseFrames(f[5])
 				tr, ok2 := c34ParseHL(f[6])
-				if e1 != nil || st < 200 || st > 599 || !ok1 || !ok2 || (f[4] != "0" && f[4] != "1") || (f[1] != "GET" && f[1] != "HEAD") {
+				if e1 != nil || st < 200 || st > 599 || !ok1 || !ok2 || (f[4] != "0" && f[4] != "1") || (f[1] != "GET" && f[1] != "HEAD") || (f[4] == "1") != (len(tr) > 0) {
 					return
 				}
 				if f[3] != "-" {
